@@ -118,6 +118,9 @@ def draw_scenario(ch: Choices, cancel: bool = False, max_tracers: int = 3) -> Di
         'hand_id': ch.choice(gen.REQ_IDS, 'req.hand_id'),
         # the call is issued while the caller is handling an unrelated exception (a fallback call inside `except`)
         'in_except': ch.flag(1, 4, 'caller.in_except'),
+        # how ids are generated: the library default, or a user id_gen_impl that hands out ONE long-lived generator
+        'id_gen': ch.choice(['default', 'default', 'shared_counter'], 'client.id_gen'),
+        'hooks': ch.flag(1, 4, 'client.hooks'),
     }
     if cancel and ch.flag(1, 2, 'cancel'):
         scn['cancel_at'] = ch.choice([0.0, 0.125, 0.25, 0.5, 0.75, 1.0, 1.5, 2.0, 2.5, 3.0, 4.0, 33.0], 'cancel.at')
@@ -313,12 +316,17 @@ def run_scenario(w: World, scn: Dict[str, Any], client_async: bool, suffix: str 
     if reuse is None:
         tracers = [RecTracer(w, i, node, raises_on_end=(scn.get('tracer_raises_on_end') == i))
                    for i in range(scn['tracers'])]
-        st = Stack(
-            w, client_async, scn['server_async'], None,
-            client_kwargs={'strict': scn['strict'], 'tracers': tracers,
-                           'retry_strategy': build_strategy(scn['client_strategy'])},
-            script=_net_script(scn), suffix=suffix, sched=sched,
-        )
+        ckw: Dict[str, Any] = {'strict': scn['strict'], 'tracers': tracers,
+                               'retry_strategy': build_strategy(scn['client_strategy'])}
+        if scn.get('id_gen') == 'shared_counter':
+            import itertools
+            counter = itertools.count(1)
+            ckw['id_gen_impl'] = lambda: counter
+        if scn.get('hooks'):
+            from .hooks import client_hooks
+            ckw.update(client_hooks())
+        st = Stack(w, client_async, scn['server_async'], None, client_kwargs=ckw, script=_net_script(scn), suffix=suffix,
+                   sched=sched)
         st.service.add_flaky(st.net.name)
         st.dispatcher.add_methods(st.service.registry(['flaky']))
     else:
